@@ -39,8 +39,8 @@ inline std::string produced_repr(const std::string &type, const std::string &dec
 	// what the simulator's value-parsing callback produces for this token (see exec.cc sim_parsecb)
 	uint64_t h = fnv64(dec);
 	char b[64];
-	if (type == "int")
-		return std::to_string((long)(h % 100000));
+	if (type == "int") // half of them need more than 32 bits, some are negative
+		return std::to_string((h & 4) ? ((h & 8) ? -(long)(h >> 3) : (long)(h >> 3)) : (long)(h % 100000));
 	if (type == "float") {
 		snprintf(b, sizeof b, "%a", (double)(h % 1000) / 8.0);
 		return b;
